@@ -5,9 +5,14 @@
    (C04_replace_joins_pieces_partial is stated for literal = true); and ReMatcher::matches on that
    program - through the minimum-length cut-off and the prefix scan - is substring search: it
    reports the leftmost occurrence of the literal (compared case-blind under i) or, when there is
-   none, false; it never panics or runs out of fuel.  Partial: tokenize / analyze totality for
-   literals rests on C04/C06's scan theorems plus the correspondence check. *)
-From RX Require Import Base.Prelude Model.Op Model.Engine Model.Matcher Model.Compiler Model.Api Proofs.LeafFacts Proofs.LiteralFacts.
+   none, false; it never panics or runs out of fuel.  And the three scanning APIs on a non-empty
+   literal, with no hypothesis left (Proofs/LiteralApi.v): from any matcher state whose back-reference
+   arrays have matching lengths - st0 is one, and the matcher keeps it - the matcher reports the
+   leftmost occurrence as group 0 and no other group, so tokenize yields exactly the pieces between
+   the occurrences the scan visits (at most len+1), replace_all inserts the replacement verbatim
+   between them, and the texts of a finished analyze iteration concatenate to the input (at most
+   2*len+1 entries, each Match one String leaf). *)
+From RX Require Import Base.Prelude Model.Op Model.Engine Model.Matcher Model.Compiler Model.Api Proofs.LeafFacts Proofs.LiteralFacts Proofs.ScanFacts Proofs.AnalyzeFacts Proofs.AnalyzeIterFacts Proofs.LiteralApi.
 
 Theorem C13_literal_program :
   forall fl p, f_literal fl = true ->
@@ -35,6 +40,44 @@ Theorem C13_literal_is_match :
     end.
 Proof. intros p ci multi input i s_in H. exact (literal_matches_spec p ci multi input H i s_in). Qed.
 
+(* the matcher of a non-empty literal meets the interface the scan-loop theorems ask for *)
+Theorem C13_literal_matcher_interface :
+  forall p ci multi input, (N.of_nat (length p) <= umax)%N -> p <> [] ->
+    good_step_on (matches (mk_program p (OSeq [OAtom p; OEnd]) 1 ci multi true false) input) input lit_inv.
+Proof. exact literal_good_step. Qed.
+
+Theorem C13_literal_tokenize :
+  forall p ci multi input, (N.of_nat (length p) <= umax)%N -> p <> [] ->
+    let prog := mk_program p (OSeq [OAtom p; OEnd]) 1 ci multi true false in
+    forall k pe s, lit_inv s -> length input - pe < k -> pe <= length input ->
+      tok_all (matches prog input) input (S (S k)) {| t_prev := Some pe; t_ms := s |}
+      = Ok (pieces input (scan (matches prog input) input (S k) pe s) pe).
+Proof. intros p ci multi input H1 H2. exact (literal_tokenize p ci multi input H1 H2). Qed.
+
+Theorem C13_literal_replace_verbatim :
+  forall p ci multi input, (N.of_nat (length p) <= umax)%N -> p <> [] ->
+    let prog := mk_program p (OSeq [OAtom p; OEnd]) 1 ci multi true false in
+    forall repl k pos s result, lit_inv s -> length input - pos < k -> pos <= length input ->
+      replace_loop (matches prog input) true 1 input repl (S k) pos s result false true
+      = Ok (result ++ join repl (pieces input (scan (matches prog input) input (S k) pos s) pos)).
+Proof. intros p ci multi input H1 H2. exact (literal_replace p ci multi input H1 H2). Qed.
+
+Theorem C13_literal_analyze :
+  forall p ci multi input, (N.of_nat (length p) <= umax)%N -> p <> [] ->
+    let prog := mk_program p (OSeq [OAtom p; OEnd]) 1 ci multi true false in
+    forall table fuel s l, lit_inv s ->
+      an_all (matches prog input) (process_matching_substring table) input fuel
+             {| a_next := None; a_prev := Some 0; a_skip := false; a_ms := s |} = Ok l ->
+      flat_map atext l = input /\ length l <= 2 * length input + 1.
+Proof. intros p ci multi input H1 H2. exact (literal_analyze p ci multi input H1 H2). Qed.
+
+Example C13_initial_state_ok : lit_inv st0.
+Proof. reflexivity. Qed.
+
 Print Assumptions C13_literal_program.
 Print Assumptions C13_other_flags_ignored.
 Print Assumptions C13_literal_is_match.
+Print Assumptions C13_literal_matcher_interface.
+Print Assumptions C13_literal_tokenize.
+Print Assumptions C13_literal_replace_verbatim.
+Print Assumptions C13_literal_analyze.
